@@ -23,6 +23,13 @@ plus the property's own predicate on the real-code result):
              an FA, a BA); oracle = the rule as CCG states it (`stated_rule`) and images computed
              by the harness (`bty_image`), neither read off the library
 
+The words of eager / brute and the productions of cfg are given as every class of box the
+front-ends accept (pregroup.Word, cfg.Word, rigid.Box, monoidal.Box, user subclasses with an
+attribute of their own), with and without `data` (also falsy: 0, [], {}, False) and `_dagger`; the
+model's boxes carry both, and the oracle demands that the boxes of the result ARE the given ones
+(`given_word_failure`: same object, or equal both ways with equal name / dom / cod / data / dagger
+flag / subclass attribute).
+
 Every call on the real code is made through `attempt` / try-except: a library exception becomes a
 failure WITH the input (never an escape that the runner can only report without one).
 
@@ -54,13 +61,111 @@ def rty(spec):
     return rigid.Ty(*[rigid.Ob(n, z) for n, z in spec])
 
 
-def word_spec(name, cod, dom=()):
-    return dict(kind="g", name=name, dom=list(dom), cod=list(cod), dagger=False, data=None)
+def word_spec(name, cod, dom=(), cls="pregroup.Word", data=None, dagger=False, extra=None):
+    """A word handed to the parsers.  `cls` says which class it is an instance of (the parsers
+    accept every box: pregroup.Word, cfg.Word, rigid.Box, monoidal.Box and user subclasses
+    "sub:<base>"), `data` / `dagger` are the optional constructor arguments of cat.Box (part of
+    box equality), `extra` an attribute only a user subclass carries."""
+    w = dict(kind="g", name=name, dom=list(dom), cod=list(cod), dagger=dagger, data=data)
+    if cls != "pregroup.Word":
+        w["cls"] = cls
+    if extra is not None:
+        w["extra"] = extra
+    return w
 
 
-def real_word(w):
-    from discopy.grammar.pregroup import Word
-    return Word(w["name"], rty(w["cod"]), dom=rty(w["dom"]) if w["dom"] else None)
+WORD_CLASSES = ["pregroup.Word", "cfg.Word", "rigid.Box", "monoidal.Box",
+                "sub:pregroup.Word", "sub:cfg.Word", "sub:rigid.Box"]
+_WORD_SUBCLASSES = {}
+
+
+def word_class(cls):
+    """The class named by a spec's `cls`; user subclasses are made once per base: they add a
+    keyword `extra` kept as an attribute and change nothing else."""
+    from discopy import monoidal, rigid
+    from discopy.grammar import cfg, pregroup
+    bases = {"pregroup.Word": pregroup.Word, "cfg.Word": cfg.Word, "rigid.Box": rigid.Box,
+             "monoidal.Box": monoidal.Box}
+    if not cls.startswith("sub:"):
+        return bases[cls]
+    if cls not in _WORD_SUBCLASSES:
+        base = bases[cls[4:]]
+
+        class UserWord(base):
+            def __init__(self, *args, extra=None, **kwargs):
+                base.__init__(self, *args, **kwargs)
+                self.extra = extra
+        UserWord.__name__ = UserWord.__qualname__ = "User" + cls[4:].replace(".", "_")
+        _WORD_SUBCLASSES[cls] = UserWord
+    return _WORD_SUBCLASSES[cls]
+
+
+def real_word(w, ty=None):
+    """The word of a spec, of the spec's class; optional arguments at their default are left out.
+    `ty` builds the types (rigid types for the pregroup parsers)."""
+    ty = ty or rty
+    cls = w.get("cls", "pregroup.Word")
+    klass = word_class(cls)
+    kw = {}
+    if w["data"] is not None:
+        kw["data"] = w["data"]
+    if w["dagger"]:
+        kw["_dagger"] = True
+    if cls.startswith("sub:"):
+        kw["extra"] = w.get("extra")
+    if cls.endswith("Word"):
+        if w["dom"]:
+            kw["dom"] = ty(w["dom"])
+        return klass(w["name"], ty(w["cod"]), **kw)
+    return klass(w["name"], ty(w["dom"]), ty(w["cod"]), **kw)
+
+
+WORD_DATA = [[1, 2], [0], {"theta": 3}, 7, 0, [], False, {}, [[1], [2, 3]], -1, [None]]
+
+
+def decorate_words(r, words, share=0.6):
+    """Redraws HOW the words of a sentence are given, leaving their types alone: the class of
+    each word and its optional `data` / `_dagger` (and a subclass attribute)."""
+    out, tags = [], set()
+    for w in words:
+        if r.random() >= share:
+            out.append(w)
+            tags.add("plain")
+            continue
+        cls = r.choice(WORD_CLASSES)
+        data = r.choice(WORD_DATA) if r.random() < 0.6 else None
+        dagger = r.random() < 0.2
+        extra = r.choice([5, [1], "tag"]) if cls.startswith("sub:") and r.random() < 0.7 else None
+        out.append(word_spec(w["name"], w["cod"], dom=w["dom"], cls=cls, data=data, dagger=dagger,
+                             extra=extra))
+        tags.add("cls:" + cls)
+        tags.add("data:" + ("none" if data is None else "falsy" if not data else "given"))
+        if dagger:
+            tags.add("dagger")
+        if extra is not None:
+            tags.add("extra_attr")
+    return out, sorted(tags)
+
+
+def given_word_failure(found, given):
+    """`found` (a box of a returned diagram) is the word `given`: the same object, or at least
+    equal to it (both ways round) with everything that makes up a box — name, dom, cod, data,
+    dagger flag — and what a user subclass added.  None if so, else what differs."""
+    if found is given:
+        return None
+    try:
+        if not (found == given and given == found):
+            what = [a for a in ("name", "dom", "cod", "data", "is_dagger")
+                    if getattr(found, a, None) != getattr(given, a, None)]
+            return "not_equal:" + ("+".join(what) or "eq")
+        for a in ("name", "dom", "cod", "data", "is_dagger"):
+            if repr(getattr(found, a)) != repr(getattr(given, a)):
+                return "differs_in:" + a
+        if getattr(given, "extra", None) != getattr(found, "extra", None):
+            return "differs_in:subclass_attribute"
+    except Exception as exc:
+        return "comparison_raises:" + err_class(exc)
+    return None
 
 
 def gen_sentence(r, size):
@@ -132,6 +237,33 @@ def fixed_sentences():
             (unit, [], ["backwards_to_empty_target"]), (unit, [ss], ["fixed"])]
 
 
+def fixed_word_classes():
+    """Always run: subject-verb-object with the words given as every class, with and without
+    data / _dagger, reducing to s; and a one-word sentence of each class."""
+    nn, ss = ("n", 0), ("s", 0)
+    verb = [("n", 1), ss, ("n", -1)]
+    out = []
+    for k, cls in enumerate(WORD_CLASSES):
+        for data in (None, [k, 1], 0):
+            for dagger in (False, True):
+                extra = "x" if cls.startswith("sub:") else None
+                other = WORD_CLASSES[(k + 1) % len(WORD_CLASSES)]
+                svo = [word_spec("Alice", [nn], cls=cls, data=data, dagger=dagger, extra=extra),
+                       word_spec("loves", verb, cls=other, data=data),
+                       word_spec("Bob", [nn], cls=cls, data=None if data is None else {"b": k})]
+                tags = ["cls:" + cls, "cls:" + other,
+                        "data:" + ("none" if data is None else "given" if data else "falsy")]
+                out.append((svo, [ss], tags + (["dagger"] if dagger else [])))
+        out.append(([word_spec("It", [ss], cls=cls, data=[1])], [ss], ["cls:" + cls, "data:given"]))
+    return out
+
+
+def sig_of(why):
+    """Failure signature from an oracle's text: its first field (two for the word clauses)."""
+    parts = why.split(":")
+    return ":".join(parts[:3 if parts[0].startswith(("word_not", "production_not")) else 1])[:70]
+
+
 def eager_oracle(d, words, target):
     """The property's clause for the pregroup parsers on a returned diagram."""
     from discopy import rigid
@@ -147,6 +279,11 @@ def eager_oracle(d, words, target):
         return "codomain %s is not the target %s" % (d.cod, target)
     if list(d.boxes[:len(words)]) != list(words):
         return "the first boxes are not the given words in order"
+    for k, (found, given) in enumerate(zip(d.boxes, words)):
+        why = given_word_failure(found, given)
+        if why:
+            return "word_not_the_given_one:%s: box %d is %r (data %r), given %r (data %r)" % (
+                why, k, found, getattr(found, "data", None), given, getattr(given, "data", None))
     scan = d.dom
     for k, (box, off) in enumerate(zip(d.boxes, d.offsets)):
         if k >= len(words):
@@ -957,13 +1094,54 @@ def gen_grammar(r):
     return syms, prods
 
 
-def real_prod(p):
+def mty(spec):
     from discopy import monoidal
-    from discopy.grammar import cfg
-    cod = monoidal.Ty(*[n for n, _ in p["cod"]])
-    if not p["dom"] and p["name"].startswith("t"):
-        return cfg.Word(p["name"], cod)
-    return monoidal.Box(p["name"], monoidal.Ty(*[n for n, _ in p["dom"]]), cod)
+    return monoidal.Ty(*[n for n, _ in spec])
+
+
+def real_prod(p):
+    """The production of a spec; without a `cls`: terminal productions are cfg.Words, the others
+    monoidal.Boxes."""
+    if "cls" not in p and p["data"] is None and not p["dagger"]:
+        from discopy import monoidal
+        from discopy.grammar import cfg
+        if not p["dom"] and p["name"].startswith("t"):
+            return cfg.Word(p["name"], mty(p["cod"]))
+        return monoidal.Box(p["name"], mty(p["dom"]), mty(p["cod"]))
+    q = dict(p)
+    q.setdefault("cls", "cfg.Word" if not p["dom"] and p["name"].startswith("t") else "monoidal.Box")
+    return real_word(q, ty=mty)
+
+
+PROD_CLASSES = ["monoidal.Box", "cfg.Word", "sub:monoidal.Box", "sub:cfg.Word"]
+
+
+def decorate_prods(r, prods):
+    """Redraws how the productions are given (class, data, _dagger, a subclass attribute); an
+    equal production given twice stays an equal pair or becomes two that differ in data only."""
+    out, tags = [], set()
+    for p in prods:
+        if r.random() < 0.4:
+            out.append(p)
+            tags.add("plain")
+            continue
+        cls = r.choice(PROD_CLASSES)
+        data = r.choice(WORD_DATA) if r.random() < 0.6 else None
+        dagger = r.random() < 0.15
+        q = dict(p, cls=cls, data=data, dagger=dagger)
+        if cls.startswith("sub:") and r.random() < 0.7:
+            q["extra"] = r.choice([5, [1], "tag"])
+            tags.add("extra_attr")
+        out.append(q)
+        tags.add("cls:" + cls)
+        tags.add("data:" + ("none" if data is None else "falsy" if not data else "given"))
+        if dagger:
+            tags.add("dagger")
+    if len(out) >= 2 and r.random() < 0.3:      # same name and type, different data
+        k = r.randrange(len(out))
+        out.append(dict(out[k], data=[9, 9] if out[k]["data"] != [9, 9] else None))
+        tags.add("twin_differs_in_data_only")
+    return out, sorted(tags)
 
 
 class ShuffleRecorder:
@@ -1002,7 +1180,12 @@ def cfg_oracle(sentence, start, prods):
         return "root %s is not the start symbol %s" % (sentence.cod, start)
     for b in sentence.boxes:
         if not any(b == p for p in prods):
-            return "box %s is not one of the productions" % (b,)
+            return "box is not one of the productions: %s" % (b,)
+        misses = [given_word_failure(b, p) for p in prods]
+        if all(misses):                     # ... with its data, dagger flag, subclass attribute
+            near = [m for m, p in zip(misses, prods) if b == p]
+            return "production_not_the_given_one:%s: %r (data %r)" % (
+                (near or misses)[0], b, getattr(b, "data", None))
     return None
 
 
@@ -1019,7 +1202,10 @@ def run(tier, seed, replay=None):
         "eager/brute: word sequences built backwards from a reduction of the target (insert "
         "adjacent adjoint pairs, cut into words), 30%% perturbed, plus s-sentences and unit-sentences "
         "requested with the explicit empty target Ty() (eager_parse and brute_force; codomain is "
-        "checked against the REQUESTED target); non-trivial = a parse with >= 2 "
+        "checked against the REQUESTED target); words / vocabulary / productions given as pregroup.Word, "
+        "cfg.Word, rigid.Box, monoidal.Box or user subclasses, with and without data and _dagger "
+        "(55-60%% of the cases redraw the classes; the result must consist of the given boxes, data "
+        "included); non-trivial = a parse with >= 2 "
         "cups. cfg: random grammars over 2-6 symbols, recorded shuffles; non-trivial = >= 1 "
         "sentence with >= 3 productions. b2r_*: slash types nested to depth <= %d with composite "
         "(and, in a ~10%% share, empty) left and right sides; non-trivial = some side of the rule "
@@ -1086,12 +1272,30 @@ def stream_eager(rep, drv, rng, n, thorough):
     from discopy.grammar.pregroup import eager_parse
     cases = [gen_sentence(rng, 10 if thorough else 6) for _ in range(n)]
     cases += fixed_sentences()
+    # HOW the words are given (drawn after the sentences: their types stay what they were): the
+    # class of each word (pregroup.Word, cfg.Word, rigid.Box, monoidal.Box, user subclasses) and
+    # its optional data / _dagger; 45 % of the sentences are left as plain pregroup.Words
+    deco_rng = random.Random(rng.getrandbits(64))
+    decorated = []
+    for ws, t, tags in cases:
+        dtags = ["all_plain"]
+        if ws and deco_rng.random() < 0.55:
+            ws, dtags = decorate_words(deco_rng, ws)
+        decorated.append((ws, t, tags, dtags))
+    decorated += [(ws, t, ["fixed_classes"], dtags) for ws, t, dtags in fixed_word_classes()]
+    word_tags = [c[3] for c in decorated]
+    cases = [c[:3] for c in decorated]
     lines = ["eager_parse %s %s" % (tok_ty(t), " ".join([str(len(ws))] + [tok_box(w) for w in ws]))
              for ws, t, _ in cases]
     answers = ask_all(drv, lines)
     opt_rng = random.Random(rng.getrandbits(64))
-    for (ws, t, tags), line, model in zip(cases, lines, answers):
-        words = [real_word(w) for w in ws]
+    for (ws, t, tags), wtags, line, model in zip(cases, word_tags, lines, answers):
+        try:
+            words = [real_word(w) for w in ws]
+        except Exception as exc:
+            rep.fail("eager_parse:word_constructor_raises", dict(words=ws, target=t),
+                     "building the words raised " + err_class(exc))
+            continue
         target = rty(t)
         value = [None]
 
@@ -1104,6 +1308,8 @@ def stream_eager(rep, drv, rng, n, thorough):
         real = ser_result(thunk)
         compare(rep, "eager_parse", dict(words=ws, target=t, target_omitted=omit), line, real, model)
         rep.count("eager:gen:" + tags[0])
+        for wt in wtags:
+            rep.count("eager:words_given:" + wt)
         rep.count("eager:target_arg:" + ("omitted" if omit else "given"))
         rep.count("eager:result:" + (real.split(" ")[1] if real.startswith("err") else "ok"))
         rep.count("eager:words:%d" % len(ws))
@@ -1112,7 +1318,7 @@ def stream_eager(rep, drv, rng, n, thorough):
             ncups = len(value[0].boxes) - len(ws)
             why = eager_oracle(value[0], words, target)
             if why:
-                rep.fail("eager_parse:" + why.split(":")[0][:40], dict(words=ws, target=t), why)
+                rep.fail("eager_parse:" + sig_of(why), dict(words=ws, target=t), why)
         rep.count("eager:cups:%s" % (ncups if ncups < 6 else "6+"))
         rep.case(line, ncups >= 2)
         if ncups >= 2:
@@ -1148,9 +1354,30 @@ def stream_brute(rep, drv, rng, n, thorough):
     cases.append((classic, [ss], 8, 5))
     cases.append(([word_spec("a", [nn]), word_spec("b", [("n", 1)])], [], 4, 3))
     opt_rng = random.Random(rng.getrandbits(64))
+    # the members of the vocabulary given as every class of box, with and without data / _dagger
+    deco_rng = random.Random(rng.getrandbits(64))
+    decorated = []
+    for vocab, t, k, take in cases:
+        dtags = ["all_plain"]
+        if vocab and deco_rng.random() < 0.6:
+            vocab, dtags = decorate_words(deco_rng, vocab)
+        decorated.append((vocab, t, k, take, dtags))
+    for j, cls in enumerate(WORD_CLASSES):          # always run: the classic vocabulary per class
+        other = WORD_CLASSES[(j + 2) % len(WORD_CLASSES)]
+        vocab = [word_spec("A", [nn], cls=cls, data=[j]),
+                 word_spec("v", [("n", 1), ss, ("n", -1)], cls=other, data={"w": j}, dagger=j % 2 == 1),
+                 word_spec("j", [("n", 1), ss], cls=cls, extra=3 if cls.startswith("sub:") else None)]
+        decorated.append((vocab, [ss], 8, 5, ["cls:" + cls, "cls:" + other, "data:given"]))
     try:
-        for vocab, t, k, take in cases:
-            words = [real_word(w) for w in vocab]
+        for vocab, t, k, take, dtags in decorated:
+            for wt in dtags:
+                rep.count("brute:vocab_given:" + wt)
+            try:
+                words = [real_word(w) for w in vocab]
+            except Exception as exc:
+                rep.fail("brute_force:word_constructor_raises", dict(vocab=vocab, target=t),
+                         "building the vocabulary raised " + err_class(exc))
+                continue
             target = rty(t)
             omit = t == [("s", 0)] and opt_rng.random() < 0.5     # default target left out
             rep.count("brute:target_arg:" + ("omitted" if omit else "given"))
@@ -1189,13 +1416,21 @@ def stream_brute(rep, drv, rng, n, thorough):
             nt = False
             if not isinstance(got, str):
                 for d in got:
-                    nw = sum(1 for b in d.boxes if isinstance(b, pregroup.Word))
+                    from discopy import rigid
+                    nw = sum(1 for b in d.boxes if not isinstance(b, rigid.Cup))
                     ws = list(d.boxes[:nw])
                     why = eager_oracle(d, ws, target)
-                    if why is None and not all(any(w == v for v in words) for w in ws):
-                        why = "a word of the parse is not in the vocabulary"
+                    if why is None:
+                        for w in ws:        # each word IS a member of the vocabulary (data too)
+                            misses = [given_word_failure(w, v) for v in words]
+                            if all(misses):
+                                near = [m for m, v in zip(misses, words)
+                                        if getattr(v, "name", None) == getattr(w, "name", 0)]
+                                why = "word_not_in_vocabulary:%s: %r (data %r)" % (
+                                    (near or misses or ["empty"])[0], w, getattr(w, "data", None))
+                                break
                     if why:
-                        rep.fail("brute_force:" + why.split(":")[0][:40],
+                        rep.fail("brute_force:" + sig_of(why),
                                  dict(vocab=vocab, target=t), why)
                     nt = nt or len(d.boxes) - nw >= 2
             rep.case(line, nt)
@@ -1211,9 +1446,15 @@ def stream_cfg(rep, drv, rng, n, thorough):
     from discopy import monoidal
     from discopy.grammar import cfg
     orig_random = cfg.random
+    deco_rng = random.Random(rng.getrandbits(64))
     try:
         for _ in range(n):
             syms, prods = gen_grammar(rng)
+            ptags = ["all_plain"]
+            if deco_rng.random() < 0.5:
+                prods, ptags = decorate_prods(deco_rng, prods)
+            for pt in ptags:
+                rep.count("cfg:productions_given:" + pt)
             start = [(rng.choice(syms), 0)] if rng.random() < 0.95 else []
             max_sentences = rng.choice([None, 0, 1, 2, 3, 5, -1] if rng.random() < 0.3 else [1, 2, 3, 5])
             max_depth = rng.choice([0, 1, 2, 3, 4, 6, 6, 8, 8, 12 if thorough else 10])
@@ -1223,7 +1464,12 @@ def stream_cfg(rep, drv, rng, n, thorough):
             case_seed = rng.getrandbits(32)
             rec = ShuffleRecorder(random.Random(case_seed))
             cfg.random = rec
-            rprods = [real_prod(p) for p in prods]
+            try:
+                rprods = [real_prod(p) for p in prods]
+            except Exception as exc:
+                rep.fail("cfg_generate:production_constructor_raises", dict(productions=prods),
+                         "building the productions raised " + err_class(exc))
+                continue
             rnot = [rprods[prods.index(p)] for p in not_twice]
             rstart = monoidal.Ty(*[s for s, _ in start])
             # optional arguments at their defaults are left out in a share of the cases
@@ -1273,7 +1519,7 @@ def stream_cfg(rep, drv, rng, n, thorough):
                 if why is None and len(d.boxes) >= max_depth:
                     why = "sentence deeper than max_depth"
                 if why:
-                    rep.fail("cfg_generate:" + why.split(":")[0][:40], case, why)
+                    rep.fail("cfg_generate:" + sig_of(why).replace("production_not_the_given_one", "not_given"), case, why)
                 nt = nt or len(d.boxes) >= 3
             rep.count("cfg:sentences:%s" % (len(got) if got is not None and len(got) < 5 else
                                              "5+" if got is not None else "err"))
